@@ -113,7 +113,7 @@ def run_c08(tier, seed):
     broken = prep(chk, "C08")
     rng = random.Random(seed)
     cases = []
-    def add(pw, seqs, order, reduced, desc_extra="", tls=None, rule=None):
+    def add(pw, seqs, order, reduced, desc_extra="", tls=None, rule=None, prep=None):
         """seqs: per connection list of symbols; order: list of connection indices"""
         pos = [0] * len(seqs)
         steps, hist = [], [[] for _ in seqs]
@@ -126,7 +126,9 @@ def run_c08(tier, seed):
         desc = "pw=%r " % pw + " | ".join("c%d: %s" % (ci, " ; ".join(h[0] for h in hs)) for ci, hs in enumerate(hist)) + " order=" + "".join(map(str, order)) + desc_extra
         if tls:
             desc = "[TLS connection%s] " % (", certificate rule" if rule else "") + desc
-        cases.append(dict(line=L.mkcase(steps, pw=pw, conns=len(seqs), app=[b"myapp"], default="mb(76)", tls=tls, rule=rule), pw=pw, hist=hist, desc=desc[:400]))
+        if prep:
+            desc = "[authenticators cleared and server restarted before the first connection] " + desc
+        cases.append(dict(line=L.mkcase(steps, pw=pw, conns=len(seqs), app=[b"myapp"], default="mb(76)", tls=tls, rule=rule, prep=prep), pw=pw, hist=hist, desc=desc[:400]))
     pws = [b"secret", b"pw", b"P\r\nw\x00d!"] if tier == "quick" else [b"secret", b"pw", b"P\r\nw\x00d!", b"a", b"correct horse battery staple"]
     for pw in pws:
         full = c08_symbols(rng, pw)
@@ -148,6 +150,11 @@ def run_c08(tier, seed):
                 add(pw, [[a]], [0], True, tls=tls, rule=rule)
                 for b in red:
                     add(pw, [[a, b]], [0, 0], True, tls=tls, rule=rule)
+        # the application reloads its authenticators (ClearAuthenticators) and restarts: the configured password is still the gate
+        for a in red:
+            add(pw, [[a]], [0], True, prep="reauth")
+            for b in red:
+                add(pw, [[a, b]], [0, 0], True, prep="reauth")
         # two connections: histories of length <= 2 each over the reduced alphabet x ALL interleavings
         small = [s for s in red if s[0] in ("AUTH %r" % pw, "AUTH %r" % (pw + b"1"), "AUTH %r" % b"", "GET k", "PING")]
         for h0 in itertools.product(small, repeat=2):
@@ -300,6 +307,14 @@ def run_c13(tier, seed):
             for other in ([("GET", [b"a"]), ("SET", [b"b", b"1"]), ("GET", [b"b"])], [("AUTH", [pw]), ("SELECT", [b"5"]), ("SET", [b"b", b"2"])]):
                 for order in interleavings([3, 3]):
                     add(pw, [a0, other], order, False, desc="[systematic config] ")
+    # a TLS connection (the state `receive` gets after the handshake) starts at the same defaults as a plain one
+    for _ in range(80 if tier == "quick" else 1500):
+        pw = rng.choice([None, b"secret", b"secret"])
+        sent = [[c13_request(rng, pw) for _ in range(rng.randint(1, 6))]]
+        tls = rng.choice([["n"], ["c" + L.hx(b"some-client")]])
+        steps = [(0, "f" + L.hx(G.request_with_nulls(nm, a))) for nm, a in sent[0]] + [(0, "e")]
+        cases.append(dict(line=L.mkcase(steps, pw=pw, conns=1, default="mb(76)", trace=False, tls=tls), pw=pw, sent=sent, par=False,
+                          desc=("pw " if pw else "") + "[TLS connection] c0: " + " ; ".join(req_desc(n, a) for n, a in sent[0])[:300]))
     # sequential reuse: a connection ends, the next one starts afterwards and must see the defaults (db 0, no user data)
     for _ in range(60 if tier == "quick" else 600):
         pw = rng.choice([None, None, b"secret"])
@@ -422,11 +437,13 @@ def c07_boundary_requests(rng):
                     reqs.append(("ZRANGE", [k, a, b] + extra))
                 reqs.append(("ZREVRANGE", [k, a, b]))
                 reqs.append(("ZREVRANGE", [k, a, b, b"WITHSCORES"]))
-        for off in (b"0", b"5", b"-1", b"2", BIG[0], BIG[1]):
-            for cnt in (b"0", b"2", b"-1", b"1", BIG[0], BIG[1]):
+        for off in (b"0", b"5", b"-1", b"2", b"1", BIG[0], BIG[1]):
+            for cnt in (b"0", b"2", b"-1", b"1", BIG[0], BIG[1], BIG[2], b"4611686018427387904", b"4611686018427387903"):
                 reqs.append(("ZRANGEBYSCORE", [k, b"-inf", b"+inf", b"LIMIT", off, cnt]))
                 reqs.append(("ZRANGEBYSCORE", [k, b"(1", b"3", b"WITHSCORES", b"LIMIT", off, cnt]))
                 reqs.append(("ZREVRANGEBYSCORE", [k, b"+inf", b"-inf", b"LIMIT", off, cnt]))
+                reqs.append(("ZREVRANGEBYSCORE", [k, b"+inf", b"-inf", b"WITHSCORES", b"LIMIT", off, cnt]))
+                reqs.append(("ZREVRANGEBYSCORE", [k, b"(3", b"1", b"LIMIT", off, cnt, b"WITHSCORES"]))
                 reqs.append(("ZRANGE", [k, b"0", b"10", b"BYSCORE", b"LIMIT", off, cnt]))
                 reqs.append(("ZRANGE", [k, b"0", b"-1", b"LIMIT", off, cnt]))
         reqs += [("ZRANGEBYSCORE", [k, b"5", b"1"]), ("ZRANGEBYSCORE", [k, b"(1", b"(1"]), ("ZINCRBY", [k, b"1e308", b"one"]), ("ZINCRBY", [k, b"1e308", b"one"]),
